@@ -59,8 +59,12 @@ def install_audit():
 REMOTE_FILES: dict = {}
 
 
+HINT_XML = ('<t:own xmlns:t="urn:T" xmlns:xsi="http://www.w3.org/2001/XMLSchema-instance">'
+            '<t:kid xsi:schemaLocation="urn:B {loc}">k</t:kid><b:tgt xmlns:b="urn:B">v</b:tgt></t:own>')
+
+
 def target_xsd(mech, ver):
-    if mech == "import":
+    if mech in ("import", "hint"):
         return (f'<xs:schema xmlns:xs="{cm.XS}" targetNamespace="urn:B"><xs:element name="tgt" type="xs:string"/>'
                 f'</xs:schema>')
     return (f'<xs:schema xmlns:xs="{cm.XS}" targetNamespace="urn:T" xmlns:t="urn:T">'
@@ -71,7 +75,14 @@ def target_xsd(mech, ver):
 
 def main_xsd(mech, loc):
     loc = loc.replace("&", "&amp;")
-    if mech == "include":
+    if mech == "hint":          # no reference in the schema: the instance brings the location
+        return (f'<xs:schema xmlns:xs="{cm.XS}" targetNamespace="urn:T" xmlns:t="urn:T">'
+                f'<xs:element name="own"><xs:complexType><xs:sequence><xs:element name="kid" type="xs:string" '
+                f'form="qualified"/><xs:any namespace="##other" '
+                f'processContents="lax" minOccurs="0"/></xs:sequence></xs:complexType></xs:element></xs:schema>')
+    if mech == "mapper":        # the included name exists nowhere: only the mapper knows where it is
+        ref = '<xs:include schemaLocation="virtual.xsd"/>'
+    elif mech == "include":
         ref = f'<xs:include schemaLocation="{loc}"/>'
     elif mech == "import":
         ref = f'<xs:import namespace="urn:B" schemaLocation="{loc}"/>'
@@ -116,6 +127,8 @@ def one_load(rec, ver, allow, main, mech, loc, src, base, explicit):
     kwargs = {"allow": allow}
     if allow == "sandbox" and explicit:
         kwargs["base_url"] = os.path.join(base, "sand")
+    if mech == "mapper":
+        kwargs["uri_mapper"] = lambda uri: loc if uri.endswith("virtual.xsd") else uri
     del _events[:]
     cls = cm.schema_class(ver)
     schema = err = None
@@ -123,6 +136,15 @@ def one_load(rec, ver, allow, main, mech, loc, src, base, explicit):
         with warnings.catch_warnings():
             warnings.simplefilter("ignore")
             schema = cls(src, **kwargs)
+            if mech == "hint":
+                xml = HINT_XML.format(loc=loc.replace("&", "&amp;"))
+                if main == "inside":        # the instance lives in the sandbox directory too
+                    doc = os.path.join(base, "sand", "doc.xml")
+                    with open(doc, "w") as f:
+                        f.write(xml)
+                    schema.is_valid(doc, use_location_hints=True)
+                else:
+                    schema.is_valid(xml, use_location_hints=True)
     except xmlschema.XMLSchemaException as e:
         err = e
     except Exception as e:      # noqa: BLE001
@@ -132,7 +154,7 @@ def one_load(rec, ver, allow, main, mech, loc, src, base, explicit):
     for kind, what in events:
         if kind == "open":
             c = classify(what, base)
-            if c:
+            if c and os.path.basename(what) != "doc.xml":
                 opened.add((os.path.basename(what) == "main.xsd" and "main" or "ref", c))
         else:
             opened.add(("main" if what.lower().endswith("/main.xsd") else "ref", "remote"))
@@ -152,7 +174,7 @@ def one_load(rec, ver, allow, main, mech, loc, src, base, explicit):
         if "ref" in loaded:
             return f"permitted reference but the schema was refused: {str(err)[:160]}"
         return None
-    ns = "urn:B" if mech == "import" else "urn:T"
+    ns = "urn:B" if mech in ("import", "hint") else "urn:T"
     has = ("{%s}tgt" % ns) in schema.maps.elements
     if has != ("ref" in loaded):
         return (f"declarations of the referenced document present={has}, spec loaded="
@@ -178,15 +200,23 @@ def judge(job):
                 f.write(target_xsd(mech, ver))
         REMOTE_FILES.clear()
         REMOTE_FILES[(REMOTE + "/inc.xsd").lower()] = target_xsd(mech, ver)
+        if mech == "mapper" and main == "remote":
+            return out, 0       # the mapper scenario is set up for a local main document only
         if main == "inside":
-            loc = location(ref["class"], ref["spelling"], base)
+            sp = ref["spelling"]
+            if mech == "mapper" and sp in ("relative", "dotted", "encoded"):
+                sp = "absolute"     # a mapper returns complete locations
+            if mech == "hint" and sp in ("relative", "dotted", "encoded"):
+                sp = "fileurl"      # a hint in a document supplied as text has nothing to be relative to
+            loc = location(ref["class"], sp, base)
             src = os.path.join(base, "sand", "main.xsd")
             with open(src, "w") as f:
                 f.write(main_xsd(mech, loc))
         else:
             # a remote main document: relative references stay remote, local targets need a file URL
             if ref["class"] == "remote":
-                loc = "inc.xsd" if ref["spelling"] in ("relative", "dotted") else location("remote", "absolute", base)
+                loc = "inc.xsd" if (ref["spelling"] in ("relative", "dotted") and mech != "hint") \
+                    else location("remote", "absolute", base)
             else:
                 loc = location(ref["class"], "fileurl", base)
             src = REMOTE + "/main.xsd"
@@ -223,7 +253,7 @@ def run(ctx: Ctx):
     ctx.evaluations = ctx.nontrivial = total
     ctx.exhaustive = True
     ctx.rule = ("allow mode (5) x main source class (inside, remote) x mechanism (include, import, redefine, "
-                "override) x target class (inside, sibling-with-shared-prefix, outside, remote) x spelling "
+                "override, instance location hint followed during validation, include through a URI mapper) x target class (inside, sibling-with-shared-prefix, outside, remote) x spelling "
                 "(relative, dotted, absolute, file URL, percent-encoded) as enumerated by TLC, both classes; "
                 "every fetch observed through audit events (open) and a stub opener (remote)")
     ctx.assumptions += ["a fetch that bypasses both builtins.open and urllib would not be observed",
